@@ -1,6 +1,7 @@
 package props
 
 import (
+	"errors"
 	"fmt"
 	"image/color"
 	"math"
@@ -87,6 +88,10 @@ func c08Source(data []byte, schedule string, seed uint64) *src.Source {
 		s.Sizes(1).DataWithEnd()
 	case "4096+data+eof":
 		s.Sizes(4096).DataWithEnd()
+	case "zero-nil": // every other Read returns (0, nil), the others up to 7 bytes
+		s.Sizes(7).ZeroNil(2)
+	case "zero-nil-3+all":
+		s.ZeroNil(3)
 	case "random17":
 		s.Random(17, rg.Intn)
 	case "random5000":
@@ -178,4 +183,22 @@ func sortInts(a []int) {
 			a[j], a[j-1] = a[j-1], a[j]
 		}
 	}
+}
+
+// boundedBuf is an io.Writer that stops accepting data beyond a limit (keeps the read-out bounded).
+type boundedBuf struct {
+	b     []byte
+	limit int64
+	over  bool
+}
+
+var errBoundedBuf = errors.New("read-out limit reached")
+
+func (w *boundedBuf) Write(p []byte) (int, error) {
+	if int64(len(w.b)+len(p)) > w.limit {
+		w.over = true
+		return 0, errBoundedBuf
+	}
+	w.b = append(w.b, p...)
+	return len(p), nil
 }
